@@ -77,8 +77,6 @@ def point_sets(rng, dim, trailing=False):
     out = []
     for n in (1, 1, 2, 2, 3):
         X = np.array([[rng.randrange(1, GRID // 2) / GRID for _ in range(n)] for _ in range(dim)])
-        if dim >= 2:   # keep inside the reference simplex as well
-            X = X * (1.0 / dim) if False else X
         out.append(X)
     out.append(out[0].copy())
     out.append(out[2].copy())
@@ -365,9 +363,18 @@ class CorrBatch:
 
 # ============================================================================ correspond()
 
-def correspond(ctx, facts, ok):
+def correspond(ctx, facts):
+    """run the real histories (no Coq needed) and return the correspondence jobs: (required generated files, CorrBatch.add args)"""
     rng = ctx.rng
-    batch = CorrBatch(ctx)
+    jobs = []
+
+    class _Collect:
+        def __init__(self):
+            self.req = []
+
+        def add(self, *a, **kw):
+            jobs.append((list(self.req), a, kw))
+    batch = _Collect()
     imp = ('Require Import Base.C15_Memo Model.C15_Caches.\nFrom Coq Require Import List Arith ZArith Bool.\n')
     nh = ctx.n(30, 150)
     L = lambda: rng.randrange(2, 13)      # noqa: E731
@@ -377,8 +384,9 @@ def correspond(ctx, facts, ok):
 
     # ---- point-array caches
     for which, gen in (('linepp', 'C15GenLinePp'), ('quadp', 'C15GenQuadP')):
-        if not ok.get(f'gen/{gen}.v'):
+        if gen not in facts:
             continue
+        batch.req = [f'gen/{gen}.v']
         cases = []
         for _ in range(nh):
             h = hist_pointcache(rng, which, L())
@@ -398,7 +406,8 @@ def correspond(ctx, facts, ok):
         batch.add(f'origins_{which}', imp + f'Require Import Gen.{gen}.',
                  f'(origins (fun X => [gen_{which}_key X]) (fun ia => drop_all ia))', 'nats_eqb', cases, nontrivial=lambda r: nontriv(r[3]))
     # ---- ElementGlobal.V
-    if ok.get('gen/C15GenGlobal.v'):
+    if 'C15GenGlobal' in facts:
+        batch.req = ['gen/C15GenGlobal.v']
         cases = []
         for _ in range(ctx.n(20, 80)):
             h = hist_global(rng, L())
@@ -407,7 +416,8 @@ def correspond(ctx, facts, ok):
         batch.add('origins_global', imp + 'Require Import Gen.C15GenGlobal.',
                  '(origins (fun m => [gen_global_key m]) (fun ia => drop_all ia))', 'nats_eqb', cases, nontrivial=lambda r: nontriv(r[2]))
     # ---- J cache
-    if ok.get('gen/C15GenJ.v'):
+    if 'C15GenJ' in facts:
+        batch.req = ['gen/C15GenHash.v', 'gen/C15GenJ.v']
         cases = []
         for _ in range(nh):
             h = hist_J(rng, L())
@@ -419,6 +429,7 @@ def correspond(ctx, facts, ok):
                  '(origins gen_J_key (fun ia => keep_all ia))', 'nats_eqb', cases, nontrivial=lambda r: nontriv(r[2]))
     # ---- lazily initialised attributes: key = (object, attribute), nothing else
     if 'C15GenLazy' in facts:
+        batch.req = []
         rows = facts['C15GenLazy']['rows']
         names = {}
         cases = []
@@ -434,8 +445,9 @@ def correspond(ctx, facts, ok):
     from . import c15_translate as T
     for name in T.SOLVERS:
         short = name[len('solver_'):]
-        if not ok.get(f'gen/C15GenSolver_{short}.v'):
+        if f'solver_{short}' not in facts:
             continue
+        batch.req = [f'gen/C15GenSolver_{short}.v']
         cases = []
         for _ in range(ctx.n(12, 60)):
             fkw, calls = random_closure_case(rng, name)
@@ -449,6 +461,14 @@ def correspond(ctx, facts, ok):
         batch.add(f'closure_{short}', imp + f'Require Import Gen.C15GenSolver_{short}.',
                  f'(fun ch : dict * list (dict * nat) => run_closure (fun A => Z.of_nat (100 + A)) gen_prog_{short} (fst ch) (snd ch))',
                  '(list_eqb dict_eqb)', cases, nontrivial=lambda r: len(r[2]) >= 2)
+    return jobs
+
+
+def run_correspondence(ctx, jobs, ok):
+    batch = CorrBatch(ctx)
+    for req, a, kw in jobs:
+        if all(ok.get(r) for r in req):
+            batch.add(*a, **kw)
     batch.run()
 
 
@@ -824,7 +844,7 @@ def _phys_points(m, which):
     nt = m.t.shape[1]
     sel = [[0], [nt - 1], [0, 1], [1, 0], [nt - 1, 0], [0, nt // 2, nt - 1], [nt - 1, 1, 0]][which % 7]
     sel = [s % nt for s in sel]
-    p = m.p[:, m.t[:m.refdom.nnodes if hasattr(m.refdom, 'nnodes') else None, sel]]
+    p = m.p[:, m.t[:m.refdom.nnodes, sel]]
     w = np.arange(1, p.shape[1] + 1, dtype=float)
     w = w / w.sum()
     return np.einsum('ijk,j->ik', p, w)
@@ -850,7 +870,7 @@ def do_op(pool, d, mon):
 
         @skfem.BilinearForm
         def a(u, v, w):
-            return dot(u, v) * (2.0 + w.x[0]) + ((u * v) * w.h if not vec else 0.0)
+            return dot(u, v) * (2.0 + w.x[0]) if vec else u * v * (2.0 + w.x[0]) + u * v * w.h
         return canon(a.assemble(bs))
     if k == 'asm_facet':
         fb = mon.watch(pool.fbasis(d['mesh'], d['elem']), 'facet_basis')
@@ -904,8 +924,6 @@ def do_op(pool, d, mon):
         e = pool.elem(d['elem'])
         X = mon.watch(_ref_points(fam, d['pts']), 'X')
         ti = mon.watch(np.array([0, m.t.shape[1] - 1]), 'tind')
-        nb = skfem.Basis(m, e).Nbfun if False else None
-        del nb
         i = d['i'] % max(1, len(e.doflocs) if hasattr(e, 'doflocs') and e.doflocs is not None else 1)
         f = e.gbasis(m._mapping(), X, i, tind=ti)[0]
         return canon([a for a in f if a is not None])
@@ -1118,36 +1136,38 @@ def classify(ops, kind):
 
 # ============================================================================ search()
 
-def _refute_in_coq(ctx, name, imports, stmt, proof):
-    """the model agrees that the witness is a key collision with different computation inputs"""
+def _refute_in_coq(ctx, name, imports, stmt, proof, pending):
+    """queue a model-side confirmation: the model agrees that the witness is a key collision with different computation inputs"""
     rel = f'chk/refute_{name}.v'
     ctx.write(rel, f'From Coq Require Import List Arith ZArith Bool.\nImport ListNotations.\n'
                    f'Require Import Base.Corr Base.C15_Memo Model.C15_Caches.\n{imports}\n'
                    f'Lemma {name}_refuted : {stmt}.\nProof. {proof} Qed.\n')
-    okc, out, err, secs = ctx.coqc(rel, 120)
-    ctx.obligations.append({'name': f'{rel}:{name}_refuted', 'kind': 'refutation-witness', 'ok': okc})
-    ctx.log(f'coqc {rel}: {"ok" if okc else "FAILED"} ({secs:.1f}s) — model-side confirmation of the witness')
-    if not okc:
-        ctx.broke('correspondence', f'refutation:{name}', 'the implementation returns a stale value for a pair of arguments that the '
-                  'model (regenerated key) does not identify: ' + err[-600:])
-    return okc
+    pending.append((name, rel))
 
 
-def search(ctx, facts, ok):
+def _run_refutations(ctx, pending):
+    res = ctx.coqc_many([rel for _, rel in pending], 120) if pending else {}
+    for name, rel in pending:
+        okc, out, err, secs = res[rel]
+        ctx.obligations.append({'name': f'{rel}:{name}_refuted', 'kind': 'refutation-witness', 'ok': okc})
+        ctx.log(f'coqc {rel}: {"ok" if okc else "FAILED"} ({secs:.1f}s) — model-side confirmation of the witness')
+        if not okc:
+            ctx.broke('correspondence', f'refutation:{name}', 'the implementation returns a stale value for a pair of arguments that the '
+                      'model (regenerated key) does not identify: ' + err[-600:])
+
+
+def search(ctx):
+    """the Python part of the search (no Coq): two-step witnesses per site, random pool histories, operand monitor.
+    returns the witnesses for the model-side confirmation"""
     rng = ctx.rng
+    wit = {}
     # ---------------- (a) two-step witnesses per site (always run; cheap)
     w = witness_pointcache(ctx, 'linepp')
     if w:
         ctx.fail('cache:ElementLinePp.P:equal-count-different-points',
                  'ElementLinePp.lbasis(X2, i) after lbasis(X1, i) with X1.shape == X2.shape returns the table of X1 '
                  '(fresh element gives a different value)', dict(w, site='linepp'))
-        if ok.get('gen/C15GenLinePp.v'):
-            X1, X2 = unjson_arr(w['X1']), unjson_arr(w['X2'])
-            _refute_in_coq(ctx, 'linepp', 'Require Import Gen.C15GenLinePp.',
-                           f'gen_linepp_key {enc_farr(X1)} = gen_linepp_key {enc_farr(X2)} /\\ '
-                           f'gen_linepp_dep {enc_farr(X1)} <> gen_linepp_dep {enc_farr(X2)} /\\ '
-                           f'origins (fun X => [gen_linepp_key X]) (fun ia => drop_all ia) [{enc_farr(X1)}; {enc_farr(X2)}] = [0; 0]',
-                           'split; [vm_compute; reflexivity | split; [vm_compute; intros H; discriminate H | vm_compute; reflexivity]].')
+        wit['linepp'] = w
     w = witness_pointcache(ctx, 'quadp')
     if w:
         ctx.fail('cache:ElementQuadP.P:stale-table', 'ElementQuadP.lbasis returns a stale table', dict(w, site='quadp'))
@@ -1155,21 +1175,13 @@ def search(ctx, facts, ok):
     if w:
         ctx.fail('cache:ElementGlobal.V:element-reused-on-another-mesh',
                  f'{w["element"]} object used on a second mesh reuses the inverse Vandermonde matrix of the first mesh', dict(w, site='global'))
-        if ok.get('gen/C15GenGlobal.v'):
-            _refute_in_coq(ctx, 'global', 'Require Import Gen.C15GenGlobal.',
-                           'gen_global_key 0 = gen_global_key 1 /\\ origins (fun m => [gen_global_key m]) (fun ia => drop_all ia) [0; 1] = [0; 0]',
-                           'split; vm_compute; reflexivity.')
+        wit['global'] = w
     w = witness_J(ctx)
     if w:
         ctx.fail('cache:MappingIsoparametric.J:hash_args-ignores-shape-dtype',
                  'MappingIsoparametric.detDF(X, tind2) after detDF(X, tind1) with tind1.tobytes() == tind2.tobytes() (other dtype/shape) '
                  'returns the Jacobians of tind1', dict(w, site='J'))
-        if ok.get('gen/C15GenJ.v'):
-            X, t1, t2 = unjson_arr(w['X']), unjson_arr(w['tind1']), unjson_arr(w['tind2'])
-            _refute_in_coq(ctx, 'J', 'Require Import Gen.C15GenHash Gen.C15GenJ.',
-                           f'gen_J_key {enc_jargs(0, 0, X, t1)} = gen_J_key {enc_jargs(0, 0, X, t2)} /\\ '
-                           f'gen_J_dep {enc_jargs(0, 0, X, t1)} <> gen_J_dep {enc_jargs(0, 0, X, t2)}',
-                           'split; [vm_compute; reflexivity | vm_compute; intros H; discriminate H].')
+        wit['J'] = w
     from . import c15_translate as T
     for name in T.SOLVERS:
         w = witness_closure(ctx, name)
@@ -1228,6 +1240,35 @@ def search(ctx, facts, ok):
     m.refined([0])
     b = np.random.get_state()[1][:4].tolist()
     ctx.extra['global_rng_state_changed_by_MeshTet1_adaptive_refinement'] = (a != b)
+    return wit
+
+
+
+
+def refute(ctx, wit, ok):
+    """model-side confirmation of the witnesses: the regenerated key identifies the two arguments, the automaton returns
+    the first call's value to the second call"""
+    pending = []
+    if 'linepp' in wit and ok.get('gen/C15GenLinePp.v'):
+        w = wit['linepp']
+        X1, X2 = unjson_arr(w['X1']), unjson_arr(w['X2'])
+        _refute_in_coq(ctx, 'linepp', 'Require Import Gen.C15GenLinePp.',
+                       f'gen_linepp_key {enc_farr(X1)} = gen_linepp_key {enc_farr(X2)} /\\ '
+                       f'gen_linepp_dep {enc_farr(X1)} <> gen_linepp_dep {enc_farr(X2)} /\\ '
+                       f'origins (fun X => [gen_linepp_key X]) (fun ia => drop_all ia) [{enc_farr(X1)}; {enc_farr(X2)}] = [0; 0]',
+                       'split; [vm_compute; reflexivity | split; [vm_compute; intros H; discriminate H | vm_compute; reflexivity]].', pending)
+    if 'global' in wit and ok.get('gen/C15GenGlobal.v'):
+        _refute_in_coq(ctx, 'global', 'Require Import Gen.C15GenGlobal.',
+                       'gen_global_key 0 = gen_global_key 1 /\\ origins (fun m => [gen_global_key m]) (fun ia => drop_all ia) [0; 1] = [0; 0]',
+                       'split; vm_compute; reflexivity.', pending)
+    if 'J' in wit and ok.get('gen/C15GenJ.v'):
+        w = wit['J']
+        X, t1, t2 = unjson_arr(w['X']), unjson_arr(w['tind1']), unjson_arr(w['tind2'])
+        _refute_in_coq(ctx, 'J', 'Require Import Gen.C15GenHash Gen.C15GenJ.',
+                       f'gen_J_key {enc_jargs(0, 0, X, t1)} = gen_J_key {enc_jargs(0, 0, X, t2)} /\\ '
+                       f'gen_J_dep {enc_jargs(0, 0, X, t1)} <> gen_J_dep {enc_jargs(0, 0, X, t2)}',
+                       'split; [vm_compute; reflexivity | vm_compute; intros H; discriminate H].', pending)
+    _run_refutations(ctx, pending)
 
 
 # ============================================================================ replay
